@@ -1,6 +1,8 @@
 package acc
 
 import (
+	"net/url"
+	"path"
 	"strconv"
 	"strings"
 )
@@ -455,4 +457,80 @@ func UpgradeHeaderSets() []map[string][]string {
 		{"X-Request-Start": {"garbage"}},
 		{"X-Forwarded-Proto": {"https"}, "X-Forwarded-Host": {"relay.example.test."}, "X-Forwarded-Port": {"65536"}},
 	}
+}
+
+// RequestLine is one method + request-target pair as it goes on the wire.
+type RequestLine struct{ M, T string }
+
+// LineCorners is the request-line dimension: methods in every case and kind, targets around each of the six
+// patterns (canonical, trailing / double slash, dot segments, other case, percent-encoded letters / dots / slashes,
+// matrix values, queries containing slashes, absolute-form), the documentation resources and their spellings, the
+// parameter segment's corners (":" alone, with a colon, encoded colon, encoded slash, empty, two segments), and the
+// targets net/http refuses itself. The model's router decides what each must be answered.
+func LineCorners() []RequestLine {
+	targets := []string{"/status", "/bids/deny", "/bids/allow", "/session/abc"}
+	var ts []string
+	for _, p := range targets {
+		i := strings.LastIndex(p, "/")
+		ts = append(ts, p, p+"/", "/"+p, p[:i]+"/"+p[i:], p[:i]+"/."+p[i:], "/x/.."+p, p+"/.", p+"/..", p+"/x/..", p+"/x",
+			strings.ToUpper(p[:2])+p[2:], p[:i+1]+strings.ToUpper(p[i+1:i+2])+p[i+2:], "/%"+strings.ToUpper(hexByte(p[1]))+p[2:], "/%2e"+p, p+"%2F", p+"%20", p+";v=1",
+			p+"?x=/status&y=../bids/deny", "http://other.example"+p, "https://relay.example.test:8443"+p+"?a=b", p+"#frag")
+	}
+	ts = append(ts, "*", "/", "//", "/.", "/..", "/swagger.json", "/swagger%2Ejson", "/swagger.json/", "//swagger.json", "/Swagger.json", "/docs", "/%64ocs", "/docs/", "/docs?x=1",
+		"/session", "/session/", "/session/:", "/session/:x", "/session/a:b", "/session/%3A", "/session/a%2Fb", "/session/%2F", "/session/%2e%2e", "/session/..", "/session/a/b",
+		"/session//abc", "/session/abc//", "/session/%41bc", "/session/abc%00", "/session/%C3%A9", "/bids", "/bids/", "/bids/:", "/bids/deny/allow", "/bids/%2e%2e/status",
+		"status", "/status%", "/status%zz", "/sta\x7ftus", "http://", "mailto:x", "//other.example/status")
+	var out []RequestLine
+	for i, t := range ts {
+		for _, m := range []string{"GET", "POST", []string{"get", "post", "Get", "pOsT"}[i%4], []string{"DELETE", "PUT", "HEAD", "OPTIONS", "PATCH", "TRACE", "PROPFIND", "G#T"}[i%8]} {
+			out = append(out, RequestLine{m, t})
+		}
+	}
+	for _, m := range []string{"CONNECT", "connect", "OPTIONS", "options", "HEAD", "TRACE", "QUERY", "!", "GET/1"} {
+		for _, t := range []string{"/status", "/bids/deny", "/session/abc", "*", "x:80"} {
+			out = append(out, RequestLine{m, t})
+		}
+	}
+	return out
+}
+
+// CanonOf says, with Go's own libraries (net/url's request-URI parser, URL.EscapedPath, path.Clean), which of the
+// six operations a request line aims at: "" if none, "public" for the documentation resources and OPTIONS *.
+// It is the oracle's reading of a line, independent of the Coq router.
+func CanonOf(method, target string) (route, id string) {
+	if method == "OPTIONS" && target == "*" {
+		return "public", ""
+	}
+	raw := target
+	if method == "CONNECT" && !strings.HasPrefix(target, "/") {
+		raw = "http://" + target
+	}
+	u, err := url.ParseRequestURI(raw)
+	if err != nil {
+		return "", ""
+	}
+	if u.Path == "/swagger.json" || u.Path == "/docs" {
+		return "public", ""
+	}
+	p := path.Clean(u.EscapedPath())
+	m := strings.ToUpper(method)
+	switch {
+	case m == "GET" && p == "/status":
+		return "status", ""
+	case m == "GET" && p == "/bids/deny":
+		return "listdeny", ""
+	case m == "GET" && p == "/bids/allow":
+		return "listallow", ""
+	case m == "POST" && p == "/bids/deny":
+		return "deny", ""
+	case m == "POST" && p == "/bids/allow":
+		return "allow", ""
+	case m == "POST" && strings.HasPrefix(p, "/session/") && !strings.Contains(p[len("/session/"):], "/") && len(p) > len("/session/"):
+		seg := p[len("/session/"):]
+		if v, err := url.PathUnescape(seg); err == nil {
+			seg = v
+		}
+		return "session", seg
+	}
+	return "", ""
 }
